@@ -1173,6 +1173,88 @@ def _isn(val1, val2) -> float:
     return 1.0
 
 
+def _true(value) -> float:  # noqa: ARG001
+    """Distance computation for the truthiness of a value that is false.
+
+    Args:
+        value: the value
+
+    Returns:
+        the distance
+    """
+    return 1.0
+
+
+def _false(value) -> float:
+    """Distance computation for the falsiness of a value that is true.
+
+    Args:
+        value: the value
+
+    Returns:
+        the distance
+    """
+    if isinstance(value, Sized):
+        # Sized instances evaluate to False if they are empty,
+        # and to True otherwise, thus we can use their size as a distance
+        # measurement.
+        return len(value)
+    if is_numeric(value):
+        # For numeric value, we can use their absolute value
+        return float(abs(value))
+    # Necessary to use inf instead of 1.0 here,
+    # so that a value for which we can't compute a false distance
+    # always has the greatest distance to the false branch than an
+    # object for which we can compute a distance.
+    return inf
+
+
+def _untaken_distance(heuristic: Callable[..., float], *values) -> float:
+    """Compute the distance to the branch that was not taken.
+
+    The distance to the branch that was taken is 0.0, the distance to the other
+    branch has to be a positive number.  The heuristics merely estimate the latter:
+    they may raise (e.g., ``float(10**400)``) or yield NaN (e.g., ``inf - inf``) or a
+    value that is not positive (e.g., due to the limited precision of floats).
+    All we know in these cases is that the branch was not taken.
+
+    Args:
+        heuristic: the heuristic that estimates the distance
+        values: the values to compute the distance for
+
+    Returns:
+        A positive distance, possibly inf
+    """
+    try:
+        distance = float(heuristic(*values))
+    except Exception:  # noqa: BLE001
+        return inf
+    if distance > 0.0:
+        return distance
+    return inf
+
+
+def _branch_distances(
+    outcome: bool,  # noqa: FBT001
+    to_true: tuple,
+    to_false: tuple,
+) -> tuple[float, float]:
+    """Compute the true and the false distance of an evaluated predicate.
+
+    Args:
+        outcome: the outcome that Python's own operator produced
+        to_true: heuristic and its arguments that estimate the distance to the true branch
+        to_false: heuristic and its arguments that estimate the distance to the false branch
+
+    Returns:
+        The true and the false distance; the distance of the outcome is 0.0, the
+        other one is positive.
+    """
+    if outcome:
+        return 0.0, _untaken_distance(*to_false)
+    return _untaken_distance(*to_true), 0.0
+
+
 _P = ParamSpec("_P")
 
 
@@ -1311,80 +1393,52 @@ class ExecutionTracer(AbstractExecutionTracer):  # noqa: PLR0904
             value1 = tt.unwrap(value1)
             value2 = tt.unwrap(value2)
 
+            # The outcome is the one of Python's own operator, the heuristics are only
+            # used to estimate the distance to the branch that is not taken.
             match cmp_op:
                 case PynguinCompare.EQ:
-                    distance_true, distance_false = _eq(value1, value2), _neq(value1, value2)
+                    outcome = value1 == value2
+                    to_true, to_false = (_eq, value1, value2), (_neq, value1, value2)
                 case PynguinCompare.NE:
-                    distance_true, distance_false = _neq(value1, value2), _eq(value1, value2)
+                    outcome = value1 != value2
+                    to_true, to_false = (_neq, value1, value2), (_eq, value1, value2)
                 case PynguinCompare.LT:
-                    distance_true, distance_false = (
-                        _lt(value1, value2),
-                        _le(value2, value1),
-                    )
+                    outcome = value1 < value2
+                    to_true, to_false = (_lt, value1, value2), (_le, value2, value1)
                 case PynguinCompare.LE:
-                    distance_true, distance_false = (
-                        _le(value1, value2),
-                        _lt(value2, value1),
-                    )
+                    outcome = value1 <= value2
+                    to_true, to_false = (_le, value1, value2), (_lt, value2, value1)
                 case PynguinCompare.GT:
-                    distance_true, distance_false = (
-                        _lt(value2, value1),
-                        _le(value1, value2),
-                    )
+                    outcome = value1 > value2
+                    to_true, to_false = (_lt, value2, value1), (_le, value1, value2)
                 case PynguinCompare.GE:
-                    distance_true, distance_false = (
-                        _le(value2, value1),
-                        _lt(value1, value2),
-                    )
+                    outcome = value1 >= value2
+                    to_true, to_false = (_le, value2, value1), (_lt, value1, value2)
                 case PynguinCompare.IN:
-                    distance_true, distance_false = (
-                        _in(value1, value2),
-                        _nin(value1, value2),
-                    )
+                    outcome = value1 in value2
+                    to_true, to_false = (_in, value1, value2), (_nin, value1, value2)
                 case PynguinCompare.NOT_IN:
-                    distance_true, distance_false = (
-                        _nin(value1, value2),
-                        _in(value1, value2),
-                    )
+                    outcome = value1 not in value2
+                    to_true, to_false = (_nin, value1, value2), (_in, value1, value2)
                 case PynguinCompare.IS:
-                    distance_true, distance_false = (
-                        _is(value1, value2),
-                        _isn(value1, value2),
-                    )
+                    outcome = value1 is value2
+                    to_true, to_false = (_is, value1, value2), (_isn, value1, value2)
                 case PynguinCompare.IS_NOT:
-                    distance_true, distance_false = (
-                        _isn(value1, value2),
-                        _is(value1, value2),
-                    )
+                    outcome = value1 is not value2
+                    to_true, to_false = (_isn, value1, value2), (_is, value1, value2)
                 case _:
                     raise AssertionError("Unknown compare op")
+            distance_true, distance_false = _branch_distances(bool(outcome), to_true, to_false)
             self._update_metrics(distance_false, distance_true, predicate)
 
     @_early_return
     def executed_bool_predicate(self, value, predicate: int) -> None:  # noqa: D102
         with self.temporarily_disable():
-            distance_true = 0.0
-            distance_false = 0.0
             # Might be necessary when using Proxies.
             value = tt.unwrap(value)
-            if value:
-                if isinstance(value, Sized):
-                    # Sized instances evaluate to False if they are empty,
-                    # and to True otherwise, thus we can use their size as a distance
-                    # measurement.
-                    distance_false = len(value)
-                elif is_numeric(value):
-                    # For numeric value, we can use their absolute value
-                    distance_false = float(abs(value))
-                else:
-                    # Necessary to use inf instead of 1.0 here,
-                    # so that a value for which we can't compute a false distance
-                    # always has the greatest distance to the false branch than an
-                    # object for which we can compute a distance.
-                    distance_false = inf
-            else:
-                distance_true = 1.0
-
+            distance_true, distance_false = _branch_distances(
+                bool(value), (_true, value), (_false, value)
+            )
             self._update_metrics(distance_false, distance_true, predicate)
 
     @_early_return
@@ -1404,7 +1458,15 @@ class ExecutionTracer(AbstractExecutionTracer):  # noqa: PLR0904
         with self.temporarily_disable():
             value1 = tt.unwrap(value1)
             value2 = tt.unwrap(value2)
-            distance_true, distance_false = _in(value1, value2), _nin(value1, value2)
+            try:
+                outcome = bool(value1 in value2)
+            except Exception:  # noqa: BLE001
+                # The subject under test does not evaluate this membership test, thus
+                # its failure must not be visible there: the key is not present.
+                outcome = False
+            distance_true, distance_false = _branch_distances(
+                outcome, (_in, value1, value2), (_nin, value1, value2)
+            )
             self._update_metrics(distance_false, distance_true, predicate)
 
     @_early_return
